@@ -33,7 +33,7 @@ Definition o_fwd (u : Z) (o : out) : nat :=
 Definition o_fail (u : Z) (o : out) : nat :=
   match o with OFail v => if v =? u then 1%nat else 0%nat | _ => 0%nat end.
 Definition o_cancel (u : Z) (o : out) : nat :=
-  match o with OCancel us => cnt u us | _ => 0%nat end.
+  match o with OCancel us => cnt u us | OCancel1 v => if v =? u then 1%nat else 0%nat | _ => 0%nat end.
 Fixpoint sum_over (f : out -> nat) (l : list out) : nat :=
   match l with [] => 0%nat | o :: r => (f o + sum_over f r)%nat end.
 Definition n_fwd (u : Z) (l : list out) : nat := sum_over (o_fwd u) l.
@@ -49,7 +49,7 @@ Definition places (u : Z) (s : state) (outs : list out) : nat :=
 Definition out_uids (o : out) : list Z :=
   match o with
   | OPut _ us | OCancel us | OSched us => us
-  | OPut1 _ u | OFail u => [u]
+  | OPut1 _ u | OFail u | OCancel1 u => [u]
   | OWarn _ => []
   end.
 Definition state_uids (s : state) : list Z :=
@@ -66,6 +66,7 @@ Definition out_eqb (a b : out) : bool :=
   | OPut1 q u, OPut1 q' u' => (q =? q') && (u =? u')
   | OFail u, OFail u' => u =? u'
   | OCancel us, OCancel us' => zl_eqb us us'
+  | OCancel1 u, OCancel1 u' => u =? u'
   | OSched us, OSched us' => zl_eqb us us'
   | OWarn n, OWarn n' => n =? n'
   | _, _ => false
@@ -73,55 +74,80 @@ Definition out_eqb (a b : out) : bool :=
 Definition bl_eqb := eqb_list (eqb_prod Z.eqb zl_eqb).
 Definition qs_eqb := eqb_list (eqb_prod Z.eqb Z.eqb).
 Definition inq_eqb := eqb_list (eqb_list task_eqb).
+(* the gone names are a set *)
+Definition set_eqb (a b : list Z) : bool :=
+  forallb (fun x => zmem x b) a && forallb (fun x => zmem x a) b.
 Definition state_eqb (a b : state) : bool :=
-  inq_eqb (inq a) (inq b) && qs_eqb (queues a) (queues b) && bl_eqb (backlog a) (backlog b).
+  inq_eqb (inq a) (inq b) && qs_eqb (queues a) (queues b) && bl_eqb (backlog a) (backlog b)
+  && zl_eqb (clist a) (clist b) && set_eqb (gone a) (gone b).
 Definition outs_eqb := eqb_list out_eqb.
 Definition obs := list (list out * state).
 Definition obs_eqb : obs -> obs -> bool := eqb_list (eqb_prod outs_eqb state_eqb).
 
 (* ---------------- clause checkers, one operation at a time ----------------
-   prev: state before the operation; arr: raptor-or-not tasks that arrived
+   hg: see below; prev: state before the operation; arr: raptor-or-not tasks that arrived
    before it; acc: effects before it; o: the operation; e: its effects;
    sn: the state after it. *)
-Definition chk := state -> list task -> list out -> op -> list out -> state -> bool.
+(* hg: the names whose last registration event in the history so far is an
+   unregistration (read off the operations, not off the implementation) *)
+Definition gone_after (hg : list Z) (o : op) : list Z :=
+  match o with Register n _ => gdel n hg | Unregister n => gadd n hg | _ => hg end.
+Definition hist_gone (ops : list op) : list Z := fold_left gone_after ops [].
+Definition chk := list Z -> state -> list task -> list out -> op -> list out -> state -> bool.
 
 Definition universe (arr : list task) (acc : list out) (sn : state) : list Z :=
   map t_uid arr ++ flat_map out_uids acc ++ state_uids sn.
 
 (* never forwarded more often than it arrived: for unique uids, at most once *)
-Definition chk_fwd_once : chk := fun prev arr acc o e sn =>
+Definition chk_fwd_once : chk := fun hg prev arr acc o e sn =>
   let arr' := arr ++ arrivals o in let acc' := acc ++ e in
   forallb (fun u => n_fwd u acc' <=? t_arr u arr')%nat (universe arr' acc' sn).
 
 (* at this moment every raptor task that arrived is in exactly one place *)
-Definition chk_place : chk := fun prev arr acc o e sn =>
+Definition chk_place : chk := fun hg prev arr acc o e sn =>
   let arr' := arr ++ arrivals o in let acc' := acc ++ e in
   forallb (fun u => t_arr u arr' =? places u sn acc')%nat (universe arr' acc' sn).
 
 (* a task (unique uid) that was failed or canceled is not forwarded, before or after *)
-Definition chk_final : chk := fun prev arr acc o e sn =>
+Definition chk_final : chk := fun hg prev arr acc o e sn =>
   let arr' := arr ++ arrivals o in let acc' := acc ++ e in
   forallb (fun u => if (t_arr u arr' <=? 1)%nat
                     then negb ((0 <? n_fwd u acc')%nat && (0 <? n_fail u acc' + n_cancel u acc')%nat)
                          && (n_fail u acc' + n_cancel u acc' <=? 1)%nat
                     else true) (universe arr' acc' sn).
 
-(* a cancel naming a task in a backlog cancels it there and removes it *)
-Definition chk_cancel : chk := fun prev arr acc o e sn =>
+(* a cancel naming a task in a backlog cancels it there and removes it; the
+   uids are registered on the cancel list *)
+Definition chk_cancel : chk := fun hg prev arr acc o e sn =>
   match o with
   | Cancel us =>
       forallb (fun u => (n_cancel u e =? tot u (backlog prev))%nat && (tot u (backlog sn) =? 0)%nat) us
+      && zl_eqb (clist sn) (clist prev ++ us)
   | _ => true
+  end.
+
+(* a drain cancels the raptor tasks on the scheduler queue whose uid is on the
+   cancel list (one list entry per task) instead of forwarding or caching them;
+   nothing else touches the cancel list *)
+Definition chk_cancel_queue : chk := fun hg prev arr acc o e sn =>
+  match o with
+  | Drain =>
+      forallb (fun u => (n_cancel u e =? Nat.min (cnt u (clist prev)) (n_inq u prev))%nat
+                        && (cnt u (clist sn) + n_cancel u e =? cnt u (clist prev))%nat)
+              (universe arr (acc ++ e) prev ++ clist prev)
+  | Cancel _ => true
+  | _ => zl_eqb (clist sn) (clist prev)
   end.
 
 (* tasks not named stay where they are, in the same order; nothing else happens *)
 Definition unnamed (us : list Z) (bl : list (Z * list Z)) : list (Z * list Z) :=
   map (fun p => (fst p, filter (fun u => negb (zmem u us)) (snd p))) bl.
-Definition chk_bystander : chk := fun prev arr acc o e sn =>
+Definition chk_bystander : chk := fun hg prev arr acc o e sn =>
   match o with
   | Cancel us =>
       inq_eqb (inq sn) (inq prev) && qs_eqb (queues sn) (queues prev)
       && bl_eqb (backlog sn) (unnamed us (backlog prev))
+      && set_eqb (gone sn) (gone prev)
       && forallb (fun x => match x with OCancel c => forallb (fun u => zmem u us) c | _ => false end) e
   | _ => true
   end.
@@ -132,7 +158,7 @@ Definition without (ks : list Z) {A} (l : list (Z * A)) : list (Z * A) :=
   filter (fun p => negb (zmem (fst p) ks)) l.
 Definition key_list (k : Z) (bl : list (Z * list Z)) : list Z :=
   match alook k bl with Some l => l | None => [] end.
-Definition chk_register : chk := fun prev arr acc o e sn =>
+Definition chk_register : chk := fun hg prev arr acc o e sn =>
   match o with
   | Register n q =>
       let due := key_list n (backlog prev) ++ (if n =? star then [] else key_list star (backlog prev)) in
@@ -141,11 +167,12 @@ Definition chk_register : chk := fun prev arr acc o e sn =>
       && bl_eqb (backlog sn) (without [n; star] (backlog prev))
       && inq_eqb (inq sn) (inq prev)
       && eqb_option Z.eqb (alook n (queues sn)) (Some q)
+      && negb (zmem n (gone sn))
   | _ => true
   end.
 
 (* Unregister fails exactly the backlog of that name and forgets name and backlog *)
-Definition chk_unregister : chk := fun prev arr acc o e sn =>
+Definition chk_unregister : chk := fun hg prev arr acc o e sn =>
   match o with
   | Unregister n =>
       outs_eqb (filter (fun x => match x with OWarn _ => false | _ => true end) e)
@@ -153,12 +180,13 @@ Definition chk_unregister : chk := fun prev arr acc o e sn =>
       && bl_eqb (backlog sn) (without [n] (backlog prev))
       && qs_eqb (queues sn) (without [n] (queues prev))
       && inq_eqb (inq sn) (inq prev)
+      && zmem n (gone sn)
   | _ => true
   end.
 
 (* a drain empties the scheduler queue; tasks without raptor_id, raptor workers
    and tasks which raptor has seen take the normal scheduling path, the others do not *)
-Definition chk_sched : chk := fun prev arr acc o e sn =>
+Definition chk_sched : chk := fun hg prev arr acc o e sn =>
   match o with
   | Drain =>
       is_nil (inq sn)
@@ -173,34 +201,94 @@ Definition chk_sched : chk := fun prev arr acc o e sn =>
 Definition no_wait (s : state) : bool :=
   forallb (fun p => match alook (fst p) (backlog s) with None => true | Some _ => false end) (queues s)
   && (is_nil (queues s) || match alook star (backlog s) with None => true | Some _ => false end).
-Definition chk_nowait : chk := fun prev arr acc o e sn => no_wait sn.
+Definition chk_nowait : chk := fun hg prev arr acc o e sn => no_wait sn.
 
-Fixpoint walk (c : chk) (prev : state) (arr : list task) (acc : list out) (ops : list op) (ob : obs) : bool :=
+(* nobody waits for a master that has unregistered, and such a master is not registered *)
+Definition no_wait_gone (hg : list Z) (s : state) : bool :=
+  forallb (fun n => match alook n (backlog s) with None => true | Some _ => false end
+                    && match alook n (queues s) with None => true | Some _ => false end) hg.
+Definition chk_nowait_gone : chk := fun hg prev arr acc o e sn => no_wait_gone (gone_after hg o) sn.
+
+Fixpoint walk (c : chk) (hg : list Z) (prev : state) (arr : list task) (acc : list out) (ops : list op) (ob : obs) : bool :=
   match ops, ob with
-  | o :: r, (e, sn) :: ob' => c prev arr acc o e sn && walk c sn (arr ++ arrivals o) (acc ++ e) r ob'
+  | o :: r, (e, sn) :: ob' => c hg prev arr acc o e sn && walk c (gone_after hg o) sn (arr ++ arrivals o) (acc ++ e) r ob'
   | _, _ => true
   end.
 
 Definition clause_checks : list chk :=
   [chk_fwd_once; chk_place; chk_final; chk_cancel; chk_bystander; chk_register; chk_unregister;
-   chk_sched; chk_nowait].
+   chk_sched; chk_nowait; chk_cancel_queue; chk_nowait_gone].
 
-(* row of a sequential case: [corr; 9 clauses; linearizable (not judged here)] *)
+(* row of a sequential case: [corr; 11 clauses; linearizable (not judged here)] *)
 Definition relay_row (ops : list op) (ob : obs) : list bool :=
   obs_eqb (trace init ops) ob
-  :: map (fun c => walk c init [] [] ops ob) clause_checks ++ [true].
+  :: map (fun c => walk c [] init [] [] ops ob) clause_checks ++ [true].
 
 (* two threads: after the prefix `ops` (trace `ob`), control_cb(a) in one
-   thread and _schedule_incoming in the other; ea / eb: what each thread
-   caused; fin: the state when both have returned.  Both take the lock around
-   what they do to queues and backlog, so the outcome has to be that of one of
-   the two orders. *)
+   thread (_control_cb for a cancel request) and _schedule_incoming in the other; ea / eb: what each thread
+   caused; fin: the state when both have returned.  Both take the raptor lock
+   around what they do to queues and backlog, so the outcome has to be that of
+   one of the two orders -- for a cancel request: see split_outcome below. *)
 Definition last_state (ob : obs) : state := last (map snd ob) init.
 Definition seq2 (s : state) (a b : op) : list out * list out * state :=
   let '(s1, e1) := step s a in let '(s2, e2) := step s1 b in (e1, e2, s2).
+(* A cancel request is handled in two steps under two different locks:
+   _control_cb registers the uids (cancel lock), control_cb then scans the
+   backlog (raptor lock).  A drain that runs meanwhile asks is_canceled once per
+   raptor task (cancel lock, inside its raptor-lock section): the registration
+   can fall between any two of these calls, the scan comes after the section.
+   split p: the registration falls after the drain's first p is_canceled calls.
+   Every such outcome satisfies the property (a named task met after the
+   registration is canceled by the drain, one cached before it by the scan, one
+   forwarded before it was forwarded before the request). *)
+Definition tickp (p : option nat) (extra cl : list Z) : option nat * list Z :=
+  match p with Some O => (None, cl ++ extra) | Some (S k) => (Some k, cl) | None => (None, cl) end.
+Fixpoint sift2 (p : option nat) (extra cl us : list Z) : list Z * list Z * list out * option nat :=
+  match us with
+  | [] => ([], cl, [], p)
+  | u :: r =>
+      let '(p1, cl1) := tickp p extra cl in
+      if zmem u cl1
+      then let '(k, cl', o, p') := sift2 p1 extra (remove1 u cl1) r in (k, cl', OCancel1 u :: o, p')
+      else let '(k, cl', o, p') := sift2 p1 extra cl1 r in (u :: k, cl', o, p')
+  end.
+Definition place (qs : list (Z * Z)) (gn : list Z) (bl : list (Z * list Z)) (n : Z) (k : list Z)
+  : list (Z * list Z) * list out :=
+  if is_nil k then (bl, [])
+  else match alook n qs with
+       | Some q => (bl, [OPut q k])
+       | None => if negb (is_nil qs) && (n =? star) then (bl, rr (map snd qs) 0 k)
+                 else if zmem n gn then (bl, map OFail k) else (aext n k bl, [])
+       end.
+Fixpoint fwd_groups2 (p : option nat) (extra : list Z) (qs : list (Z * Z)) (gn : list Z)
+  (bl : list (Z * list Z)) (cl : list Z) (g : list (Z * list Z))
+  : list (Z * list Z) * list Z * list out * option nat :=
+  match g with
+  | [] => (bl, cl, [], p)
+  | (n, us) :: r =>
+      let '(k, cl1, o0, p1) := sift2 p extra cl us in
+      let '(bl1, o1) := place qs gn bl n k in
+      let '(bl2, cl2, o2, p2) := fwd_groups2 p1 extra qs gn bl1 cl1 r in
+      (bl2, cl2, o0 ++ o1 ++ o2, p2)
+  end.
+Definition split_outcome (p : nat) (us : list Z) (s : state) : list out * list out * state :=
+  let ts := concat (inq s) in
+  let '(bl, cl, o, p') := fwd_groups2 (Some p) us (queues s) (gone s) (backlog s) (clist s) (collect ts) in
+  let cl' := match p' with Some _ => cl ++ us | None => cl end in
+  let eb := o ++ (if is_nil (normal ts) then [] else [OSched (normal ts)]) in
+  let '(bl', c) := cancel_walk us bl in
+  ([OCancel c], eb, mkS [] (queues s) bl' cl' (gone s)).
+
 Definition lin_ok (s0 : state) (a : op) (ea eb : list out) (fin : state) : bool :=
   (let '(e1, e2, s2) := seq2 s0 a Drain in outs_eqb e1 ea && outs_eqb e2 eb && state_eqb s2 fin)
-  || (let '(e1, e2, s2) := seq2 s0 Drain a in outs_eqb e1 eb && outs_eqb e2 ea && state_eqb s2 fin).
+  || (let '(e1, e2, s2) := seq2 s0 Drain a in outs_eqb e1 eb && outs_eqb e2 ea && state_eqb s2 fin)
+  || match a with
+     | Cancel us =>
+         existsb (fun p => let '(e1, e2, s2) := split_outcome p us s0 in
+                           outs_eqb e1 ea && outs_eqb e2 eb && state_eqb s2 fin)
+                 (seq 0 (S (length (concat (inq s0)))))
+     | _ => false
+     end.
 
 Definition pair_row (ops : list op) (ob : obs) (a : op) (ea eb : list out) (fin : state) : list bool :=
   let arr := all_arrivals ops in
@@ -208,6 +296,6 @@ Definition pair_row (ops : list op) (ob : obs) (a : op) (ea eb : list out) (fin 
   let s0 := last_state ob in
   let e := ea ++ eb in
   obs_eqb (trace init ops) ob
-  :: [ chk_fwd_once s0 arr acc a e fin; chk_place s0 arr acc a e fin; chk_final s0 arr acc a e fin;
-       true; true; true; true; true; no_wait fin;
+  :: [ chk_fwd_once [] s0 arr acc a e fin; chk_place [] s0 arr acc a e fin; chk_final [] s0 arr acc a e fin;
+       true; true; true; true; true; no_wait fin; true; no_wait_gone (gone_after (hist_gone ops) a) fin;
        lin_ok s0 a ea eb fin ].
